@@ -338,7 +338,17 @@ _patch_transport_creation()
 
 
 # ------------------------------------------------------------------------------------------------ scenarios
-def make_command(P, kind, reg, count, comm=0xf7):
+def make_command(P, kind, reg, count, comm=0xf7, what='read'):
+    """what: 'read' (count registers) | 'write' (single register, value = count) | 'multi' (count registers of payload)"""
+    if what == 'write':
+        if kind == 'udp': return P.ModbusRtuWriteCommand(comm, reg, count)
+        if kind == 'tcp': return P.ModbusTcpWriteCommand(comm, reg, count)
+        if kind == 'aa55': return P.Aa55WriteCommand(reg, count)
+    if what == 'multi':
+        payload = bytes((reg + i) & 255 for i in range(2 * count))
+        if kind == 'udp': return P.ModbusRtuWriteMultiCommand(comm, reg, payload)
+        if kind == 'tcp': return P.ModbusTcpWriteMultiCommand(comm, reg, payload)
+        if kind == 'aa55': return P.Aa55WriteMultiCommand(reg, payload)
     if kind == 'udp': return P.ModbusRtuReadCommand(comm, reg, count)
     if kind == 'tcp': return P.ModbusTcpReadCommand(comm, reg, count)
     if kind == 'aa55': return P.Aa55ReadCommand(reg, count)
@@ -375,7 +385,7 @@ def run_scenario(sc: dict):
             k = op['k']
             try:
                 if op['op'] == 'req':
-                    cmd = tr.wrap_command(make_command(P, sc.get('framing', kind), op.get('reg', 100 + 10 * k), op.get('count', 2)))
+                    cmd = tr.wrap_command(make_command(P, sc.get('framing', kind), op.get('reg', 100 + 10 * k), op.get('count', 2), what=op.get('what', 'read')))
                     op['cmd'] = cmd
                     r = await cmd.execute(proto)
                     out = ('ok', r.raw_data)
